@@ -1,6 +1,6 @@
 import SafeNet.Model.Replication
 import SafeNet.Props.C08
-import SafeNet.Props.C07
+import SafeNet.Proofs.ValidateData
 /-! Helper lemmas for C09 (`Props/C09.lean`): the record-type code is injective, `union` is canonical,
 evaluation of the validation model on replication deliveries, the local index as a lookup table. -/
 namespace SafeNet.Replication
@@ -87,8 +87,28 @@ theorem canon_cons {a : Nat} {l : List Nat} (hl : Canon l) (h : ∀ x ∈ l, a <
   | nil => trivial
   | cons b r => exact ⟨h b (List.mem_cons_self ..), hl⟩
 
-theorem mem_insertSorted' (x y : Nat) (l : List Nat) : y ∈ insertSorted x l ↔ y = x ∨ y ∈ l :=
-  SafeNet.Props.C07.mem_insertSorted x y l
+theorem mem_insertSorted' (x y : Nat) (l : List Nat) : y ∈ insertSorted x l ↔ y = x ∨ y ∈ l := by
+  induction l with
+  | nil => simp [insertSorted]
+  | cons z zs ih =>
+    unfold insertSorted
+    split
+    · simp
+    · split
+      · rename_i h; subst h; simp
+      · simp [ih]; constructor
+        · rintro (h | h | h) <;> simp [h]
+        · rintro (h | h | h) <;> simp [h]
+
+theorem mem_foldl_insert' (a acc : List Nat) (y : Nat) :
+    y ∈ a.foldl (fun acc x => insertSorted x acc) acc ↔ y ∈ a ∨ y ∈ acc := by
+  induction a generalizing acc with
+  | nil => simp
+  | cons x xs ih =>
+    simp only [List.foldl_cons, ih, mem_insertSorted', List.mem_cons]
+    constructor
+    · rintro (h | h | h) <;> simp [h]
+    · rintro ((h | h) | h) <;> simp [h]
 
 theorem canon_insertSorted (x : Nat) {l : List Nat} (h : Canon l) : Canon (insertSorted x l) := by
   induction l with
@@ -145,8 +165,10 @@ theorem canon_ext : ∀ {a b : List Nat}, Canon a → Canon b → (∀ x, x ∈ 
       · have := canon_lt hb z hz; omega
       · exact this
 
-theorem mem_union' (a b : List Nat) (y : Nat) : y ∈ union a b ↔ y ∈ a ∨ y ∈ b :=
-  SafeNet.Props.C07.mem_union a b y
+theorem mem_union' (a b : List Nat) (y : Nat) : y ∈ union a b ↔ y ∈ a ∨ y ∈ b := by
+  unfold union
+  rw [mem_foldl_insert', mem_foldl_insert']
+  simp
 
 /-- the merge of two sets does not depend on the side it is computed on -/
 theorem union_comm (a b : List Nat) : union a b = union b a :=
